@@ -79,7 +79,12 @@ def streams(tier, rng, P, only=None, cases=None):
         for i in range(n):
             form = rng.choice(["rest", "note", "noten", "l", "lsub", "bang_time", "bang_arg", "after_res", "nol", "nol", "div", "div", "divin", "chord", "chord"])
             # (in the length slot of a numbered note a leading '+' is a separator after an omitted head, as '^' is: `n61,+4`)
-            text, s, k = gen_expr(rng, True, layout=(form in ("rest", "note", "l") and rng.random() < 0.4), plus_ok=(form == "noten"))
+            # (… and after the rest letter: `r+8` is the default length tied to an eighth)
+            lay_ = form in ("rest", "note", "l") and rng.random() < 0.4
+            text, s, k = gen_expr(rng, True, layout=lay_, plus_ok=(form == "noten" or (form == "rest" and not lay_)))
+            if form == "rest" and not lay_ and rng.random() < 0.25:
+                e0 = dict(pct=False, neg=False, digs="", dots=0); p0 = dict(pct=False, neg=False, digs=rng.choice(["4", "8", "2", "16", ""]), dots=rng.choice([0, 0, 1]))
+                text = "+" + render(p0); s = syn(e0) + ";%d/%s" % (ord("+"), syn(p0)); k = 1 + p0["dots"]
             if form == "noten" and rng.random() < 0.5:
                 # the bare shapes `+N` / `^N` (one plain number after an omitted head), with and without the comma before the slot
                 e0 = dict(pct=False, neg=False, digs="", dots=0); p0 = dict(pct=False, neg=False, digs=rng.choice(["4", "8", "2", "16", "0", "1"]), dots=rng.choice([0, 0, 1]))
